@@ -109,3 +109,16 @@ claim("C13", "other",
       "overall largest when normalised) is below the threshold, masks follow the last call of a call sequence.",
       "Trusted: numpy; the oracle. Bound: 2-6 windows x 400-900 samples (STA/LTA), 1-7 windows x 20-100 samples (maximum value), quick 90+120 / thorough 2000+2500 cases.",
       "bounded native evaluation of the contract (stand-in; the functions are outside the PyVC subset: reshape/mean(axis), isinstance dispatch)", "DESIGN.md 5/C13")
+
+claim("C16", "other",
+      "Proof (every obligation discharged by z3/cvc5 on the source re-read from /repo): sesame.peak_index returns the index of the highest local "
+      "maximum (through C08's contract of _find_peak_unbounded); trim_curve returns the inclusive range of the first samples nearest "
+      "min(range) and max(range); reliability criteria i-iii and clarity criteria i-vi - incl. the closed intervals [f0/4, f0], [f0, 4 f0], the "
+      "+-5 % rule for the peaks of A*sigma_A and A/sigma_A, and the five-band (epsilon, theta) table - equal the SESAME (2004) criteria evaluated "
+      "on the peak of the mean curve, for every positive curve with a peak, every window length/count/fn std, the untrimmed call and the three "
+      "limited search-range patterns (trim_curve replaced by its contract), verbose in {0,1,2}; sigma_A identity exp(log a + s)/a = exp(s) and "
+      "the monotonicity lemmas for ii and v. Cross-check (bounded): end-to-end verdicts incl. trimming against an independent transcription "
+      "of the guideline, exact band edges, all verbosity levels.",
+      TB + "exp/log uninterpreted with A-LOGEXP; boolean-mask selection / np.where / np.max of a selection axiomatised (A-NP-MASK, A-NP-WHERE); "
+      "band-edge convention: an edge belongs to the higher (stricter) band.",
+      "contract-based deductive verification (AST->SMT VCs with if-merging, masked-selection model; z3+cvc5) + native cross-check", "DESIGN.md 5/C16")
